@@ -1,2 +1,2 @@
--- stub: replaced by the family's driver
-def main : IO Unit := IO.println "family files: no driver yet"
+import PrimitivModel.Driver.FilesDrv
+def main : IO Unit := Primitiv.Drv.FilesDrv.main
